@@ -273,6 +273,7 @@ static std::vector<std::vector<uint64_t>> &merkle_space()
     return sp;
 }
 
+#ifndef PBT_NO_MAIN
 int main(int argc, char **argv)
 {
     for (int i = 1; i + 1 < argc; i++) if (std::string(argv[i]) == "--level") g_level = atoi(argv[i + 1]);
@@ -303,3 +304,4 @@ int main(int argc, char **argv)
                          return std::vector<uint64_t>{(uint64_t)v, (uint64_t)lr, cols, dim, batch, (uint64_t)nth, *g::uni64()}; }); }, body_merkle, 1, true, desc_merkle, 100});
     return pbt::harness_main(argc, argv, "h_poseidon", props);
 }
+#endif // PBT_NO_MAIN
